@@ -48,6 +48,10 @@ func main() {
 		}
 		os.Exit(1)
 	}
+	if *dump == "atoms" {
+		dumpAtoms(e)
+		return
+	}
 	if *dump != "" {
 		for _, k := range strings.Split(*dump, ",") {
 			fn := e.Fn(k)
@@ -175,6 +179,17 @@ func dumpFn(e *Engine, fn *ssa.Function) {
 				}
 				fmt.Printf("b%d %s RETURN %s  errorExit=%v\n", b.Index, e.InstrPos(in), strings.Join(rs, " ; "), fa.IsErrorExit(x))
 			}
+		}
+	}
+}
+
+func dumpAtoms(e *Engine) {
+	for _, fn := range e.SMFuncs() {
+		for _, a := range e.DirectAtoms(fn) {
+			if a.Kind == "fieldwrite" || a.Kind == "emit" {
+				continue
+			}
+			fmt.Printf("%-55s %s  %s\n", FuncKey(fn), a.String(), e.InstrPos(a.Instr))
 		}
 	}
 }
